@@ -28,6 +28,7 @@ import EaselModel.Msa.LemmasRfCons
 import EaselModel.Msa.LemmasFull2
 import EaselModel.Msa.LemmasFlushIP
 import EaselModel.Msa.LemmasWf
+import EaselModel.Msa.LemmasRf3
 /-! # C15 — alignment transformations keep the alignment well formed and the residues intact; WUSS round trips
 
 Property theorems only; proofs are glue on the lemmas of `EaselModel/Msa/Lemmas*.lean`.
@@ -1283,11 +1284,101 @@ theorem reasonableRF_shape_partial {W : Type} (A : WArith W) (hA : ∀ t, A.isCo
 /-- `esl_msa_ReasonableRF(msa, symfrac, TRUE, rfline)` on a DIGITAL alignment (`esl_abc_FCount` into binary32 counts,
     `esl_vec_FArgMax`; modelled line by line and compared exactly). PARTIAL: shape only (the threshold and the counts are
     floating-point arithmetic, L0): `alen` characters, each `.` or the symbol of one of the `K` canonical residues — never
-    a gap, a degenerate or any other symbol. In text mode the C code dereferences `msa->abc == NULL` (caller contract). -/
+    a gap, a degenerate or any other symbol. (`reasonableRFCons` is the digital branch; the whole repaired function, text branch
+    included, is `reasonableRFConsX`: theorems `reasonableRF_cons_*` below.) -/
 theorem reasonableRF_cons_shape_partial {W C : Type} (A : WArith W) (B : CArith W C) (m : Msa) (a : Abc) (wgt : List W)
     (rf : Bytes) (habc : m.abc = some a) (hK : 0 < a.K) (h : reasonableRFCons A B m wgt = some rf) :
     rf.length = m.alen ∧ ∀ c ∈ rf, c = 0x2e ∨ ∃ k, k < a.K ∧ c = a.sym.getD k 0 :=
   reasonableRFCons_shape A B m a wgt rf habc hK h
+
+/-! ## esl_msa_ReasonableRF(useconsseq = TRUE) as repaired by 0c757a4: every branch -/
+
+/-- no alphabet (every text-mode alignment the library builds; the former NULL dereference): `eslEINVAL`, for every
+    alignment, threshold and weight vector -/
+theorem reasonableRF_cons_no_alphabet {W C : Type} (A : WArith W) (B : CArith W C) (m : Msa) (wgt : List W) :
+    reasonableRFConsX A B m none wgt = .einval := rfl
+
+/-- on a digital alignment the repaired function is the digital branch modelled before -/
+theorem reasonableRF_cons_digital {W C : Type} (A : WArith W) (B : CArith W C) (m : Msa) (wgt : List W)
+    (hd : m.isDigital = true) :
+    reasonableRFConsX A B m m.abc wgt = (match reasonableRFCons A B m wgt with | some rf => .ok rf | none => .einval) :=
+  reasonableRFConsX_digital A B m wgt hd
+
+/-- THE TEXT BRANCH (caller-supplied alphabet `a` on a text-mode alignment): when every cell of the first `alen` columns is
+    a letter of the alphabet or one of its gap characters, the call succeeds and writes EXACTLY the line the digital branch
+    writes for the digitized alignment (`esl_msa_Digitize`'s result) — same columns (`rfline[apos]`, not `apos-1`), counts
+    reset per column — for every threshold, weight vector and arithmetic. -/
+theorem reasonableRF_cons_text_eq_digital {W C : Type} (A : WArith W) (B : CArith W C) (a : Abc) (m : Msa) (wgt : List W)
+    (htext : m.isDigital = false) (hok : RfTextOk a m) (hvalid : (m.rows.all fun r => (r.take m.alen).all a.cIsValid) = true) :
+    (digitize a m).st = .ok ∧
+    reasonableRFConsX A B m (some a) wgt = reasonableRFConsX A B (digitize a m).msa (digitize a m).msa.abc wgt := by
+  have hd : digitize a m = { msa := { m with rows := m.rows.map (fun r => r.map a.digit), abc := some a, flags := m.flags ||| flagDigital },
+                             st := .ok } := by
+    unfold digitize; simp [htext, hvalid]
+  refine ⟨by rw [hd], ?_⟩
+  rw [reasonableRFConsX_text_eq_digital A B a m wgt htext hok, hd]
+  have hdig : Msa.isDigital { m with rows := m.rows.map (fun r => r.map a.digit), abc := some a, flags := m.flags ||| flagDigital } = true := by
+    have h0 : m.flags / 2 % 2 = 0 := by
+      have := htext; unfold Msa.isDigital at this
+      have h2 : m.flags / 2 % 2 < 2 := Nat.mod_lt _ (by decide)
+      simp only [beq_eq_false_iff_ne, ne_eq] at this; omega
+    unfold Msa.isDigital
+    simp only [flagDigital, beq_iff_eq]
+    have : (m.flags ||| 2) / 2 % 2 = 1 := by
+      have e : (m.flags ||| 2).testBit 1 = true := by rw [Nat.testBit_or]; simp; right; decide
+      rw [Nat.testBit_eq_decide_div_mod_eq] at e
+      simpa using e
+    exact this
+  simp only [reasonableRFConsX, hdig, if_true]
+
+/-- the text branch never leaves its arrays on such an alignment, and the line has `alen` characters, each `.` or the
+    symbol of one of the `K` canonical residues -/
+theorem reasonableRF_cons_text_shape {W C : Type} (A : WArith W) (B : CArith W C) (a : Abc) (hK : 0 < a.K) (m : Msa) (wgt : List W)
+    (htext : m.isDigital = false) (hok : RfTextOk a m) :
+    ∃ rf, reasonableRFConsX A B m (some a) wgt = .ok rf ∧ rf.length = m.alen ∧
+      ∀ c ∈ rf, c = 0x2e ∨ ∃ k, k < a.K ∧ c = a.sym.getD k 0 := by
+  refine ⟨_, reasonableRFConsX_text_eq_digital A B a m wgt htext hok, by simp, ?_⟩
+  intro c hc
+  simp only [List.mem_map] at hc
+  obtain ⟨apos, _, rfl⟩ := hc
+  exact rfDigitalColumn_shape A B a hK _
+
+/-- the hypothesis of the two theorems above holds for the alphabets of the working tree (tables regenerated on every run):
+    a 7-bit character that the alphabet accepts, other than its missing-data and nonresidue characters, is a letter standing
+    for a residue or a non-letter standing for a gap -/
+theorem generated_text_cells :
+    ∀ a ∈ [Gen.rnaAbc, Gen.dnaAbc, Gen.aminoAbc], ∀ n, n < 128 → a.cIsValid (UInt8.ofNat n) = true →
+      (a.digit (UInt8.ofNat n)).toNat < a.Kp - 2 → RfTextCell a (UInt8.ofNat n) := by
+  unfold RfTextCell
+  decide +kernel
+
+/-- THE THRESHOLD, exactly (ℚ in place of `double`; the comparison the code makes: `r > 0. && r / totwgt >= symfrac`):
+    a column is a consensus column iff the total weight `R` of the sequences with a residue is positive and
+    `R / (R + G) >= symfrac`, `G` the weight of the sequences with a gap; missing-data cells of a digital alignment are in
+    neither sum (text mode: every non-letter is a gap). -/
+theorem reasonableRF_threshold_exact (symfrac : Rat) (isRes isGapLike : UInt8 → Bool) (cells : List (UInt8 × Rat)) :
+    rfColumn (ratArith symfrac) isRes isGapLike cells =
+      if 0 < wsum isRes cells ∧ symfrac ≤ wsum isRes cells / wsum (fun c => isRes c || isGapLike c) cells then 0x78 else 0x2e :=
+  rfColumn_rat symfrac isRes isGapLike cells
+
+/-- rows `ACGU` / `AC-U` (the former witness of the NULL dereference), weights 1, symfrac 1/2, exact arithmetic: no
+    alphabet: `eslEINVAL`; alphabet lent: `ACGU` — column 2 has occupancy exactly 1/2 and `>=` makes it consensus; symfrac
+    51/100 makes it `.` -/
+def exRfText : Msa := { Msa.create 2 4 with rows := [[0x41, 0x43, 0x47, 0x55], [0x41, 0x43, 0x2d, 0x55]] }
+example : reasonableRFConsX (ratArith (1/2)) ratCArith exRfText none [1, 1] = .einval := rfl
+example : reasonableRFConsX (ratArith (1/2)) ratCArith exRfText (some Gen.rnaAbc) [1, 1] = .ok [0x41, 0x43, 0x47, 0x55] ∧
+    reasonableRFConsX (ratArith (51/100)) ratCArith exRfText (some Gen.rnaAbc) [1, 1] = .ok [0x41, 0x43, 0x2e, 0x55] := by
+  decide +kernel
+example : exRfText.isDigital = false ∧ RfTextOk Gen.rnaAbc exRfText := by
+  refine ⟨rfl, ?_⟩
+  unfold RfTextOk RfTextCell
+  decide +kernel
+/-- a letter outside the lent alphabet: `esl_abc_FCount` would read `abc->degen[255]`: the model faults (caller contract) -/
+example : reasonableRFConsX (ratArith (1/2)) ratCArith { exRfText with rows := [[0x41, 0x45, 0x47, 0x55], [0x41, 0x43, 0x2d, 0x55]] }
+    (some Gen.rnaAbc) [1, 1] = .fault := by decide +kernel
+example : rfColumn (ratArith (1/2)) isAlpha (fun _ => true) [(0x47, 1), (0x2d, 1)] = 0x78 ∧
+    wsum isAlpha [(0x47, (1 : Rat)), (0x2d, 1)] = 1 := by decide +kernel
+
 
 /-! ## esl_sq.c: conversions of a sequence object taken from an alignment -/
 
@@ -1439,11 +1530,6 @@ example : wuss2ct (wussReverse [0x3c, 0x41, 0x3e, 0x61, 0x2e]) = some (mirrorCt 
 /-- a letter-free balanced line has no pseudoknotted pair at all; `<A>a` has one -/
 example : FewPkSS [0x3c, 0x3c, 0x2e, 0x3e, 0x3e] := ⟨[0, 5, 4, 0, 2, 1], by decide, by decide⟩
 example : FewPkSS [0x3c, 0x41, 0x3e, 0x61] := ⟨[0, 3, 4, 1, 2], by decide, by decide⟩
-
-/-- the excluded point of `reasonableRF_cons_shape_partial`, as the code stands: a text-mode alignment has no alphabet and
-    the call faults (known finding `C15:esl_msa_ReasonableRF:text-useconsseq-null-abc`) -/
-example : reasonableRFCons (W := Nat) (C := Nat) ⟨0, (· + ·), fun r _ => decide (r > 0)⟩ ⟨0, id, (· + ·), (· / ·), fun a b => decide (a > b)⟩
-    exMsa [1, 1] = none := by decide
 
 example : (wussFull [0x3c, 0x41, 0x3e, 0x61, 0x2e]).toOption = some [0x3c, 0x41, 0x3e, 0x61, 0x3a] ∧
     wuss2ct (wussNopseudo [0x3c, 0x41, 0x3e, 0x61, 0x2e]) = some [0, 3, 0, 1, 0, 0] := by decide
